@@ -20,12 +20,6 @@ Cfg(v, g, f, a, n, o) == [v |-> v, g |-> g, f |-> f, a |-> a, n |-> n, o |-> o]
 
 StreamsUpTo(RU, l) == UNION {[1..k -> RU] : k \in 0..l}
 Min2(a, b) == IF a < b THEN a ELSE b
-\* configurations x (all short streams + sampled longer ones)
-Family(Configs, RU, exLen, maxLen) ==
-  {[c |-> c, s |-> s] : c \in Configs, s \in StreamsUpTo(RU, exLen)}
-  \cup UNION {UNION {{[c |-> c, s |-> s] : s \in RandomSubset(Min2(NSample, Cardinality(RU) ^ l), [1..l -> RU])}
-                     : l \in (exLen + 1)..maxLen} : c \in Configs}
-
 \* ---- counting verbs
 RUcnt == { <<P("g", "a"), P("h", "1")>>, <<P("g", "b"), P("h", "1")>>, <<P("g", "a"), P("h", "2")>>, <<P("g", ""), P("h", "1")>>,
            <<P("h", "1")>>, <<P("g", "a")>>, <<P("h", "1"), P("g", "a")>>, <<P("g", "b"), P("h", "2"), P("z", "9")>> }
@@ -140,8 +134,9 @@ Families ==
     Fam(CfgMerge, RUmerge, ExLen, ExLen + 1), Fam(CfgMergeC, RUmergec, ExLen, ExLen + 1),
     Fam(CfgStep, RUint, ExLen, MaxLen + 1), Fam(CfgWin, RUint, ExLen, MaxLen + 1), Fam(CfgTop, RUint, ExLen, MaxLen + 1),
     Fam(CfgFrac, RUfrac, ExLen, MaxLen), Fam(CfgHist, RUhist, ExLen, MaxLen), Fam(CfgFill, RUfill, ExLen, MaxLen) }
-Cases == UNION {Family(F.cfgs, F.ru, F.ex, F.mx) : F \in Families}
-\* the same set, in the shape TLC enumerates without building it (VerbsAggregateGen's initial states)
+\* x is a case: a configuration of a family with a short stream or one of the sampled longer ones.  (An operator with a parameter,
+\* enumerated by TLC as VerbsAggregateGen's initial states: a constant definition of the whole set would be evaluated, with all
+\* its samples, by every module that extends this one.)
 IsCase(x) ==
   \E F \in Families : \E c \in F.cfgs :
     \E s \in StreamsUpTo(F.ru, F.ex) \cup UNION {RandomSubset(Min2(NSample, Cardinality(F.ru) ^ l), [1..l -> F.ru]) : l \in (F.ex + 1)..F.mx} :
